@@ -1,14 +1,38 @@
-"""C07 - grid indices, ring/position, coordinates: lemmas over the real armi grid code."""
+"""C07 - grid indices, ring/position, coordinates: lemmas over the real armi grid code.
+
+Every lemma is (a) symbolically executed by pyvc together with the source text of the armi functions it
+calls (obligations -> z3/cvc5, for all integers / reals) and (b) run natively on the real armi.
+"""
+import numpy as np
+
 from spec import *
 
 HexGrid = repo("armi.reactor.grids.hexagonal:HexGrid")
+CartesianGrid = repo("armi.reactor.grids.cartesian:CartesianGrid")
+ThetaRZGrid = repo("armi.reactor.grids.thetarz:ThetaRZGrid")
+AxialGrid = repo("armi.reactor.grids.axial:AxialGrid")
+StructuredGrid = repo("armi.reactor.grids.structuredGrid:StructuredGrid")
+IndexLocation = repo("armi.reactor.grids.locations:IndexLocation")
+CoordinateLocation = repo("armi.reactor.grids.locations:CoordinateLocation")
+Composite = repo("armi.reactor.composites:Composite")
 hexagon = repo("armi.utils.hexagon")
+
+LOOP_INVARIANTS = {
+    ("armi.reactor.grids.cartesian:CartesianGrid.getMinimumRings", 1): {
+        "inv": [
+            "_i >= 1",
+            "numPositions == (0 if _i == 1 else ((2 * (_i - 1) - 1) ** 2 if self._isThroughCenter() else (2 * (_i - 1)) ** 2))",
+            "_i == 1 or numPositions < n",
+        ],
+    },
+}
 
 
 def hexdist(i, j):
     return max(abs(i), abs(j), abs(i + j))
 
 
+# ----------------------------------------------------------------------------- hex ring / position
 @lemma
 def hex_ring_is_distance_plus_one(i: int, j: int):
     ring, pos = HexGrid.indicesToRingPos(i, j)
@@ -30,3 +54,373 @@ def hex_ringpos_roundtrip_from_ringpos(ring: int, pos: int):
     assume(pos <= hexagon.numPositionsInRing(ring))
     i, j = HexGrid.getIndicesFromRingAndPos(ring, pos)
     assert HexGrid.indicesToRingPos(i, j) == (ring, pos)
+    assert hexdist(i, j) == ring - 1
+
+
+@lemma
+def hex_positions_contiguous_along_ring(ring: int, pos: int):
+    """consecutive positions of a ring are neighbouring cells (numbered contiguously, counter-clockwise)"""
+    assume(ring >= 2)
+    assume(1 <= pos)
+    n = hexagon.numPositionsInRing(ring)
+    assume(pos <= n)
+    nxt = pos + 1 if pos < n else 1
+    i, j = HexGrid.getIndicesFromRingAndPos(ring, pos)
+    i2, j2 = HexGrid.getIndicesFromRingAndPos(ring, nxt)
+    assert hexdist(i2 - i, j2 - j) == 1
+
+
+@lemma
+def hex_bad_ringpos_rejected(ring: int, pos: int):
+    assume(ring >= 1)
+    try:
+        HexGrid.getIndicesFromRingAndPos(ring, pos)
+        raised = False
+    except ValueError:
+        raised = True
+    n = hexagon.numPositionsInRing(ring)
+    if ring == 1:
+        assert raised == (pos != 1)
+    else:
+        assert raised == (pos < 1 or pos > n)
+
+
+@lemma
+def hex_ring_counts(ring: int):
+    assume(ring >= 1)
+    assert hexagon.totalPositionsUpToRing(1) == 1
+    assert hexagon.numPositionsInRing(1) == 1
+    assert implies(ring > 1, hexagon.numPositionsInRing(ring) == 6 * (ring - 1))
+    assert hexagon.totalPositionsUpToRing(ring + 1) == hexagon.totalPositionsUpToRing(ring) + hexagon.numPositionsInRing(ring + 1)
+    assert HexGrid.getPositionsInRing(ring) == hexagon.numPositionsInRing(ring)
+
+
+@lemma(gen={"n": (0, 2000000)})
+def hex_min_rings_exact(n: int):
+    assume(n >= 0)
+    R = hexagon.numRingsToHoldNumCells(n)
+    if n == 0:
+        assert R == 0
+    else:
+        assert R >= 1
+        assert hexagon.totalPositionsUpToRing(R) >= n
+        assert R == 1 or hexagon.totalPositionsUpToRing(R - 1) < n
+        assert HexGrid.getMinimumRings(n) == R
+
+
+# ----------------------------------------------------------------------------- hex geometry
+def hexgrid(pitch, cornersUp, ox=0.0, oy=0.0, oz=0.0):
+    us = HexGrid._getRawUnitSteps(pitch, cornersUp)
+    return new(
+        HexGrid,
+        _unitSteps=np.array(us),
+        _bounds=(None, None, None),
+        _stepDims=((0, 1, 2),),
+        _boundDims=((),),
+        _offset=np.array((ox, oy, oz)),
+        _unitStepLimits=((-3, 3), (-3, 3), (0, 1)),
+    )
+
+
+@lemma(gen={"pitch": (0.05, 40.0)})
+def hex_unit_steps_and_pitch(pitch: float, cornersUp: bool):
+    assume(pitch > 0)
+    g = hexgrid(pitch, cornersUp)
+    assert eq(g.pitch, pitch)
+    assert g.cornersUp == cornersUp
+    us = HexGrid._getRawUnitSteps(pitch, cornersUp)
+    # the two lattice vectors have length pitch and are 60 degrees apart
+    ax, ay = us[0][0], us[1][0]
+    bx, by = us[0][1], us[1][1]
+    assert eq(ax * ax + ay * ay, pitch * pitch)
+    assert eq(bx * bx + by * by, pitch * pitch)
+    assert eq(ax * bx + ay * by, pitch * pitch / 2)
+    assert ax * by - ay * bx > 0
+
+
+@lemma(gen={"pitch": (0.05, 40.0), "i": (-40, 40), "j": (-40, 40), "k": (0, 5)})
+def hex_coordinates_affine(i: int, j: int, k: int, pitch: float, cornersUp: bool, ox: float, oy: float, oz: float):
+    assume(pitch > 0)
+    g = hexgrid(pitch, cornersUp, ox, oy, oz)
+    us = HexGrid._getRawUnitSteps(pitch, cornersUp)
+    c = g.getCoordinates((i, j, k))
+    assert eq(c[0], us[0][0] * i + us[0][1] * j + us[0][2] * k + ox)
+    assert eq(c[1], us[1][0] * i + us[1][1] * j + us[1][2] * k + oy)
+    assert eq(c[2], oz)
+    b = g.getCellBase((i, j, k))
+    t = g.getCellTop((i, j, k))
+    # step-defined axes: base/top are the half-step points around the centre
+    assert eq(b[0] + t[0], 2 * c[0])
+    assert eq(b[1] + t[1], 2 * c[1])
+    assert eq(t[0] - b[0], us[0][0] + us[0][1] + us[0][2])
+    assert eq(t[1] - b[1], us[1][0] + us[1][1] + us[1][2])
+
+
+@lemma(gen={"pitch": (0.05, 40.0), "i": (-40, 40), "j": (-40, 40)})
+def hex_neighbors_one_pitch_ccw(i: int, j: int, pitch: float, cornersUp: bool):
+    assume(pitch > 0)
+    g = hexgrid(pitch, cornersUp)
+    c = g.getCoordinates((i, j, 0))
+    nbrs = g.getNeighboringCellIndices(i, j, 0)
+    assert len(nbrs) == 6
+    dx = []
+    dy = []
+    for n in nbrs:
+        cn = g.getCoordinates(n)
+        dx.append(cn[0] - c[0])
+        dy.append(cn[1] - c[1])
+    for m in range(6):
+        assert eq(dx[m] * dx[m] + dy[m] * dy[m], pitch * pitch), "neighbour one pitch away"
+        m2 = (m + 1) % 6
+        # consecutive neighbours: 60 degrees apart, counter-clockwise
+        assert eq(dx[m] * dx[m2] + dy[m] * dy[m2], pitch * pitch / 2), "consecutive neighbours 60 degrees apart"
+        assert dx[m] * dy[m2] - dy[m] * dx[m2] > 0, "counter-clockwise order"
+    # first neighbour in the 30 (flats up) / 60-degree... direction: positive x, non-negative y
+    assert dx[0] > 0 and dy[0] >= 0 if not cornersUp else dx[0] > 0
+
+
+@lemma(gen={"p1": (0.05, 40.0), "p2": (0.05, 40.0), "i": (-40, 40), "j": (-40, 40), "k": (0, 5)})
+def hex_change_pitch_rescales_only(i: int, j: int, k: int, p1: float, p2: float, cornersUp: bool, ox: float, oy: float, oz: float):
+    assume(p1 > 0)
+    assume(p2 > 0)
+    g = hexgrid(p1, cornersUp, ox, oy, oz)
+    c1 = g.getCoordinates((i, j, k))
+    g.changePitch(p2)
+    c2 = g.getCoordinates((i, j, k))
+    assert eq(g.pitch, p2)
+    assert g.cornersUp == cornersUp
+    assert eq((c2[0] - ox) * p1, (c1[0] - ox) * p2)
+    assert eq((c2[1] - oy) * p1, (c1[1] - oy) * p2)
+    assert eq(c2[2], c1[2])
+    assert eq(g._offset[0], ox) and eq(g._offset[1], oy) and eq(g._offset[2], oz)
+    assert g._bounds == (None, None, None)
+    assert g._unitStepLimits == ((-3, 3), (-3, 3), (0, 1))
+
+
+# ----------------------------------------------------------------------------- Cartesian
+def cartgrid(w, h, isOffset):
+    return new(
+        CartesianGrid,
+        _unitSteps=np.array(((w, 0.0, 0.0), (0.0, h, 0.0), (0, 0, 0))),
+        _bounds=(None, None, None),
+        _stepDims=((0, 1, 2),),
+        _boundDims=((),),
+        _offset=np.array((w / 2.0, h / 2.0, 0.0)) if isOffset else np.zeros(3),
+        _unitStepLimits=((-3, 3), (-3, 3), (0, 1)),
+    )
+
+
+@lemma(gen={"i": (-30, 30), "j": (-30, 30)})
+def cart_ringpos_range(i: int, j: int, isOffset: bool):
+    g = cartgrid(1.0, 1.0, isOffset)
+    ring, pos = g.getRingPos((i, j))
+    assert ring >= 1
+    assert 1 <= pos
+    assert pos <= g.getPositionsInRing(ring)
+    # ring = Chebyshev distance (through centre) / half-offset variant
+    if isOffset:
+        assert ring == max(i if i >= 0 else -i - 1, j if j >= 0 else -j - 1) + 1
+    else:
+        assert ring == max(abs(i), abs(j)) + 1
+
+
+@lemma(gen={"i1": (-3, 3), "j1": (-3, 3), "i2": (-3, 3), "j2": (-3, 3)})
+def cart_ringpos_injective(i1: int, j1: int, i2: int, j2: int, isOffset: bool):
+    g = cartgrid(1.0, 1.0, isOffset)
+    assume(g.getRingPos((i1, j1)) == g.getRingPos((i2, j2)))
+    assert (i1, j1) == (i2, j2)
+
+
+@lemma(gen={"n": (1, 5000)})
+def cart_min_rings_exact(n: int, isOffset: bool):
+    assume(n >= 1)
+    g = cartgrid(1.0, 1.0, isOffset)
+    R = g.getMinimumRings(n)
+    tot = (2 * R) ** 2 if isOffset else (2 * R - 1) ** 2
+    prev = (2 * (R - 1)) ** 2 if isOffset else (0 if R == 1 else (2 * (R - 1) - 1) ** 2)
+    assert R >= 1
+    assert tot >= n
+    assert prev < n
+
+
+@lemma(gen={"ring": (1, 60)})
+def cart_positions_in_ring_sum(ring: int, isOffset: bool):
+    assume(ring >= 1)
+    g = cartgrid(1.0, 1.0, isOffset)
+    tot = lambda r: (2 * r) ** 2 if isOffset else (2 * r - 1) ** 2
+    assert g.getPositionsInRing(1) == tot(1)
+    assert g.getPositionsInRing(ring + 1) == tot(ring + 1) - tot(ring)
+
+
+@lemma(gen={"w": (0.05, 30.0), "h": (0.05, 30.0), "i": (-40, 40), "j": (-40, 40), "k": (0, 3)})
+def cart_coordinates_affine(i: int, j: int, k: int, w: float, h: float, isOffset: bool):
+    assume(w > 0)
+    assume(h > 0)
+    g = cartgrid(w, h, isOffset)
+    c = g.getCoordinates((i, j, k))
+    off = 0.5 if isOffset else 0.0
+    assert eq(c[0], w * (i + off))
+    assert eq(c[1], h * (j + off))
+    assert eq(c[2], 0.0)
+    assert g.pitch == (w, h)
+
+
+@lemma(gen={"w": (0.05, 30.0), "h": (0.05, 30.0), "w2": (0.05, 30.0), "h2": (0.05, 30.0), "i": (-40, 40), "j": (-40, 40)})
+def cart_change_pitch_rescales_only(i: int, j: int, w: float, h: float, w2: float, h2: float, isOffset: bool):
+    assume(w > 0 and h > 0 and w2 > 0 and h2 > 0)
+    g = cartgrid(w, h, isOffset)
+    c1 = g.getCoordinates((i, j, 0))
+    g.changePitch(w2, h2)
+    c2 = g.getCoordinates((i, j, 0))
+    assert eq(c2[0] * w, c1[0] * w2)
+    assert eq(c2[1] * h, c1[1] * h2)
+    assert eq(c2[2], c1[2])
+    assert g.pitch == (w2, h2)
+    assert g._bounds == (None, None, None)
+
+
+# ----------------------------------------------------------------------------- theta-R-Z and bounds-defined axes
+@lemma
+def thetarz_ringpos_inverse(i: int, j: int, ring: int, pos: int):
+    g = new(ThetaRZGrid)
+    r, p = g.getRingPos((i, j, 0))
+    assert ThetaRZGrid.getIndicesFromRingAndPos(r, p) == (i, j)
+    i2, j2 = ThetaRZGrid.getIndicesFromRingAndPos(ring, pos)
+    assert g.getRingPos((i2, j2, 0)) == (ring, pos)
+
+
+@lemma
+def bounds_axes_midpoints(i: int, j: int, k: int):
+    """bounds-defined grid (theta-R-Z style: all three axes by bounds): centre = midpoint, base/top = bounds"""
+    tb = sym_list("real", "tb", mono=True)
+    rb = sym_list("real", "rb", mono=True)
+    zb = sym_list("real", "zb", mono=True)
+    g = new(
+        StructuredGrid,
+        _unitSteps=np.array(()),
+        _bounds=(tb, rb, zb),
+        _stepDims=((),),
+        _boundDims=((0, 1, 2),),
+        _offset=np.zeros(3),
+    )
+    inrange = 0 <= i and i + 1 < len(tb) and 0 <= j and j + 1 < len(rb) and 0 <= k and k + 1 < len(zb)
+    try:
+        c = g.getCoordinates((i, j, k))
+        b = g.getCellBase((i, j, k))
+        t = g.getCellTop((i, j, k))
+        ok = True
+    except IndexError:
+        ok = False
+    assert implies(inrange, ok)
+    assert implies(i < 0 or j < 0 or k < 0, not ok), "negative index on a bounds axis is refused"
+    if ok:
+        assume(inrange)
+        assert eq(c[0], (tb[i] + tb[i + 1]) / 2.0)
+        assert eq(c[1], (rb[j] + rb[j + 1]) / 2.0)
+        assert eq(c[2], (zb[k] + zb[k + 1]) / 2.0)
+        assert eq(b[0], tb[i]) and eq(b[1], rb[j]) and eq(b[2], zb[k])
+        assert eq(t[0], tb[i + 1]) and eq(t[1], rb[j + 1]) and eq(t[2], zb[k + 1])
+
+
+@lemma
+def axial_grid_mixed_steps_and_bounds(i: int, j: int, k: int, ox: float, oy: float, oz: float):
+    """1-D axial grid: x,y step-defined with zero steps, z by bounds; offset added"""
+    zb = sym_list("real", "zb", mono=True)
+    g = new(
+        AxialGrid,
+        _unitSteps=np.array(((0, 0), (0, 0))),
+        _bounds=(None, None, zb),
+        _stepDims=((0, 1),),
+        _boundDims=((2,),),
+        _offset=np.array((ox, oy, oz)),
+    )
+    assume(0 <= k and k + 1 < len(zb))
+    c = g.getCoordinates((i, j, k))
+    assert eq(c[0], ox) and eq(c[1], oy)
+    assert eq(c[2], (zb[k] + zb[k + 1]) / 2.0 + oz)
+    assert eq(g.getCellBase((i, j, k))[2], zb[k] + oz)
+    assert eq(g.getCellTop((i, j, k))[2], zb[k + 1] + oz)
+
+
+# ----------------------------------------------------------------------------- nested locations
+def _axial(zb, obj):
+    return new(
+        AxialGrid,
+        _unitSteps=np.array(((0, 0), (0, 0))),
+        _bounds=(None, None, zb),
+        _stepDims=((0, 1),),
+        _boundDims=((2,),),
+        _offset=np.zeros(3),
+        _isAxialOnly=True,
+        armiObject=obj,
+    )
+
+
+@lemma
+def nested_axial_in_hex(i: int, j: int, k: int, pitch: float, rx: float, ry: float, rz: float):
+    """block (axial grid of an assembly) inside a core hex grid inside a reactor at a free coordinate"""
+    assume(pitch > 0)
+    zb = sym_list("real", "zb", mono=True)
+    assume(0 <= k and k + 1 < len(zb))
+    reactor = new(Composite, parent=None, spatialLocator=None)
+    rloc = CoordinateLocation(rx, ry, rz, None)
+    core = new(Composite, parent=reactor)
+    core.spatialLocator = rloc
+    cg = hexgrid(pitch, False)
+    cg.armiObject = core
+    cg._isAxialOnly = False
+    assem = new(Composite, parent=core)
+    aloc = IndexLocation(i, j, 0, cg)
+    assem.spatialLocator = aloc
+    ag = _axial(zb, assem)
+    bloc = IndexLocation(0, 0, k, ag)
+    # indices compose (axial-in-radial only)
+    assert bloc.getCompleteIndices() == (i, j, k)
+    assert aloc.getCompleteIndices() == (i, j, 0)
+    # coordinates compose by adding the parents' coordinates
+    c = bloc.getGlobalCoordinates()
+    ca = cg.getCoordinates((i, j, 0))
+    assert eq(c[0], ca[0] + rx)
+    assert eq(c[1], ca[1] + ry)
+    assert eq(c[2], (zb[k] + zb[k + 1]) / 2.0 + rz)
+    b = bloc.getGlobalCellBase()
+    t = bloc.getGlobalCellTop()
+    assert eq(b[2], zb[k] + rz)
+    assert eq(t[2], zb[k + 1] + rz)
+
+
+@lemma
+def nested_pin_grid_does_not_add_indices(i: int, j: int, pi: int, pj: int, pitch: float, pp: float):
+    """a 2-D pin grid inside a 2-D core grid: indices are NOT added (only axial-in-radial nesting adds)"""
+    assume(pitch > 0 and pp > 0)
+    core = new(Composite, parent=new(Composite, parent=None, spatialLocator=CoordinateLocation(0.0, 0.0, 0.0, None)))
+    core.spatialLocator = CoordinateLocation(0.0, 0.0, 0.0, None)
+    cg = hexgrid(pitch, False)
+    cg.armiObject = core
+    cg._isAxialOnly = False
+    blk = new(Composite, parent=core)
+    blk.spatialLocator = IndexLocation(i, j, 0, cg)
+    pg = hexgrid(pp, True)
+    pg.armiObject = blk
+    pg._isAxialOnly = False
+    ploc = IndexLocation(pi, pj, 0, pg)
+    assert ploc.getCompleteIndices() == (pi, pj, 0)
+    c = ploc.getGlobalCoordinates()
+    cl = pg.getCoordinates((pi, pj, 0))
+    cb = cg.getCoordinates((i, j, 0))
+    assert eq(c[0], cl[0] + cb[0]) and eq(c[1], cl[1] + cb[1])
+
+
+@lemma
+def nested_axial_in_axial_does_not_add(k1: int, k2: int):
+    """adding indices is valid only for an axial grid inside a non-axial one"""
+    zb = sym_list("real", "zb", mono=True)
+    zc = sym_list("real", "zc", mono=True)
+    top = new(Composite, parent=new(Composite, parent=None, spatialLocator=CoordinateLocation(0.0, 0.0, 0.0, None)))
+    top.spatialLocator = CoordinateLocation(0.0, 0.0, 0.0, None)
+    g1 = _axial(zb, top)
+    mid = new(Composite, parent=top)
+    mid.spatialLocator = IndexLocation(0, 0, k1, g1)
+    g2 = _axial(zc, mid)
+    loc = IndexLocation(0, 0, k2, g2)
+    assert loc.getCompleteIndices() == (0, 0, k2)
